@@ -585,8 +585,12 @@ def run_property(prop, tier, seed, only=None):
     if errors:
         for name, payload in errors[:5]:
             sys.stderr.write('HARNESS ERROR in %s\n%s\n' % (name, payload))
-        sys.stderr.write('%d harness error(s); no verdict.\n' % len(errors))
-        return 2
+        # A slice that stopped with a harness error explored less than it should have: without a confirmed violation from the
+        # other slices there is no verdict (exit 2).  A violation that replays in fresh interpreters is a verdict whatever
+        # else went wrong (on a broken tree both happen together: state leaking between cases makes outcomes irreproducible).
+        if not any(st.violations for st in merged.values()):
+            sys.stderr.write('%d harness error(s); no verdict.\n' % len(errors))
+            return 2
 
     # ---- verdict
     known = [k for k in load_known() if k.get('property') == prop]
@@ -605,6 +609,7 @@ def run_property(prop, tier, seed, only=None):
         print('KNOWN-FINDING: property=%s %s (%d case(s) this run; sig=%s)'
               % (prop, open_known[sig].get('what', ''), n, sig))
     reported = []
+    unconfirmed = []
     if fresh:
         fresh.sort(key=lambda v: (len(json.dumps(v['case'], default=repr)), v['family']))
         seen_sigs = set()
@@ -632,8 +637,9 @@ def run_property(prop, tier, seed, only=None):
                     if L >= len(win):
                         break
                 if found is None:
-                    raise HarnessError('violation %s (case %r) did not reproduce on replay, alone or after its predecessors'
+                    unconfirmed.append('violation %s (case %r) did not reproduce on replay, alone or after its predecessors'
                                        % (v['sig'], v['case']))
+                    continue
                 v = found
             print('VIOLATION property=%s replay=%s' % (prop, path))
             print('  family=%s sig=%s\n  %s\n  case=%s' % (v['family'], v['sig'], v['msg'],
@@ -649,7 +655,18 @@ def run_property(prop, tier, seed, only=None):
             reported.append(path)
             if len(reported) >= 8:
                 break
-        rc = 1
+        if reported:
+            rc = 1
+            for u in unconfirmed[:5]:
+                sys.stderr.write('note: %s\n' % u)
+        else:
+            # nothing that was recorded replays: nondeterminism the harness does not own -- no verdict
+            raise HarnessError('; '.join(unconfirmed[:3]) or 'violations recorded but none confirmed')
+    if errors and rc == 0:
+        sys.stderr.write('%d harness error(s); no verdict.\n' % len(errors))
+        return 2
+    if errors:
+        sys.stderr.write('note: %d slice(s) ended in a harness error; the violations above were confirmed by replay\n' % len(errors))
 
     # ---- evidence
     wall = time.time() - t0
